@@ -1,5 +1,6 @@
 import Qentem.Proofs.ExprEval
 import Qentem.Proofs.ExprScanWf
+import Qentem.Proofs.ExprScanTotal
 import Qentem.Generated.Expr
 /-!
 # C04 — expression evaluation equals exact arithmetic with the documented precedence
@@ -436,6 +437,22 @@ theorem scan_then_evaluate {R : Type} [RealLike R] (cfg : ScanCfg R) (env : Env 
   rcases h with h | h
   · exact Or.inl h
   · exact Or.inr (evaluate_eq_tree env items h)
+
+/-- the scanner model is total on every expression text inside a tag: it returns a list (possibly
+empty = "not an expression"), never a failed read, never exhausted fuel. -/
+theorem scan_total {R : Type} (cfg : ScanCfg R) (c : List Nat) (off endO : Nat) (he : endO < c.length) :
+    ∃ items, parseTop cfg c off endO = .ok items :=
+  parseTop_total cfg c off endO he
+
+/-- hence, unconditionally: the scanner's list evaluates to the value of its precedence tree -/
+theorem scan_then_evaluate_total {R : Type} [RealLike R] (cfg : ScanCfg R) (env : Env R) (c : List Nat)
+    (off endO : Nat) (he : endO < c.length) :
+    ∃ items, parseTop cfg c off endO = .ok items ∧
+      (items = [] ∨ evaluateTop env true items = evalTop env (climb items)) := by
+  obtain ⟨items, h⟩ := parseTop_total cfg c off endO he
+  have := scan_then_evaluate cfg env c off endO he
+  rw [h] at this
+  exact ⟨items, h, this⟩
 
 /-! ### Scanner: statement only (S) -/
 
